@@ -176,7 +176,7 @@ def kRet (s : KState) (i : Nat) (toks : List String) : KState :=
     | ["done"], .clean _ => s
     | ["done"], .snap _ => s
     | _, .other => s
-    | [r], _ => if r == "fault" || r.startsWith "err" then s else s.flag s!"unexpected-return c{i} {r}"
+    | [r], _ => s.flag s!"unexpected-error-or-return c{i} {r.take 80}"
     | _, _ => s.flag s!"unexpected-return c{i}"
   ((s.fire (.stop i) "stop").setCall i .idle)
 
@@ -286,6 +286,10 @@ def kjLine (j : KJ) (l : String) : KJ × List String :=
     let line := (l.drop 2).toString
     let (st, _) := kLine j.st line
     let j := { j with st := st }
+    -- no faults are injected in this family: a call that returns an error is a failure of its own
+    let errs := ((line.splitOn " :: ").filter fun e => e.startsWith "ret " && ((e.splitOn " ").getD 2 "").startsWith "err").map
+      fun e => s!"noerr call-failed {e.take 100}"
+    let j := { j with fails := j.fails ++ errs }
     if line.startsWith "END" then
       ({ j with fails := j.fails ++ kjFinal st ((line.splitOn " :: ").drop 1) }, [])
     else (j, [])
